@@ -730,15 +730,18 @@ def fracPositive : FV → Bool
 
 def smallestF32 : FV := .fin false 1 (-149)
 
-/-- Value.toReflectValue for primitive values and scalar / interface{} targets.
-    A returned `error` is reported as `.goPanic`: every caller (goSliceObject.setValue, goArrayObject.setValue,
-    goMapObject.toValue) does `panic(err)` with the plain Go error. -/
+/-- Value.toReflectValue for primitive values and scalar / interface{} targets, as seen through its callers
+    goSliceObject.setValue, goArrayObject.setValue and goMapObject.toValue.
+    A returned `error` (every message starts with "RangeError: ") is raised by the callers through
+    `goValueError` (type_go_slice.go:30, since fix bb377a4) as a JavaScript RangeError = `.rangeErr`.
+    `.goPanic` remains for genuine Go panics inside the conversion: `Value.float64` on a float32 payload
+    (value_number.go:84) and reflect's Set of the invalid Value. -/
 def toReflectValue (v : JV) (t : GT) : Res GV :=
   let pre : Bool :=                                            -- l.743-758
     match t with
     | .num .f32 | .num .f64 | .any => false
     | _ => (match v with | .num (.f32 x) | .num (.f64 x) => fracPositive x | _ => false)
-  if pre then .goPanic else
+  if pre then .rangeErr else
   match t with
   | .bool => .ok (.bool (toBool v))                            -- l.761
   | .num (.i k) =>
@@ -748,31 +751,31 @@ def toReflectValue (v : JV) (t : GT) : Res GV :=
         | none => .goPanic
         | some f =>
           let tmp := toIntegerFloat f
-          if lt tmp negTwo63 || lt two63 tmp then .goPanic
+          if lt tmp negTwo63 || lt two63 tmp then .rangeErr
           else .ok (.num (.int k (goInt64 tmp))))
      | .uint | .u64 =>                                         -- l.797, l.823
        (match toFloat v with
         | none => .goPanic
         | some f =>
           let tmp := toIntegerFloat f
-          if lt tmp zero || lt two64 tmp then .goPanic
+          if lt tmp zero || lt two64 tmp then .rangeErr
           else .ok (.num (.int k (goUint64 tmp))))
      | _ =>                                                    -- Int8/16/32, Uint8/16/32
        (match numberInt64 v with
         | none => .goPanic
-        | some tmp => if tmp < k.lo ∨ tmp > k.hi then .goPanic else .ok (.num (.int k tmp))))
+        | some tmp => if tmp < k.lo ∨ tmp > k.hi then .rangeErr else .ok (.num (.int k tmp))))
   | .num .f32 =>                                               -- l.831
     (match toFloat v with
      | none => .goPanic
      | some tmp =>
        let a := abs tmp
-       if lt zero a && (lt a smallestF32 || lt maxF32 a) then .goPanic
+       if lt zero a && (lt a smallestF32 || lt maxF32 a) then .rangeErr
        else .ok (.num (.f32 (toF32 tmp))))
   | .num .f64 => (match toFloat v with | none => .goPanic | some x => .ok (.num (.f64 x)))   -- l.841
-  | .str => (match jsToString v with | some s => .ok (.str s) | none => .goPanic)            -- l.844
+  | .str => (match jsToString v with | some s => .ok (.str s) | none => .goPanic)            -- l.844 (none: not modelled)
   | .any =>                                                    -- default branch, l.853
     (match v with
-     | .undef | .null => .goPanic            -- reflect.ValueOf(nil) is the invalid Value; Set panics
+     | .undef | .null => .goPanic            -- reflect.ValueOf(nil) is the invalid Value; Set panics in reflect
      | .arr _ | .obj _ => (exportV true v).map asAny
      | .bool b => .ok (.any (.bool b))
      | .num n => .ok (.any (.num n))
@@ -897,7 +900,7 @@ def sliceRun (S : StoreSem) (s : SliceSt) : List SOp → SliceSt × List Obs
     if o.isFail then (s', [o])
     else let (s'', os) := sliceRun S s' rest; (s'', o :: os)
 
-/-- the code: toReflectValue, and SetLen on the unaddressable reflect.Value panics -/
+/-- the code: toReflectValue (errors raised as RangeError), and SetLen on the unaddressable reflect.Value panics -/
 def modelStore : StoreSem := { cv := toReflectValue, setLenPanics := true }
 
 def SliceSt.init (et : GT) (elems : List GV) (cap : Nat) : SliceSt :=
